@@ -1,15 +1,17 @@
-(* C16 deepening (2)+(3): group graph patterns (statements with optional `.`, FILTER, GRAPH, `{}` UNION chains, sub-select)
+(* C16 deepening (2)+(3): group graph patterns (statements with optional `.`, FILTER, BIND, VALUES, GRAPH, `{}` UNION chains, sub-select)
    and SELECT, mutually recursive - layout-annotated syntax trees, printer, source tree, well-formedness, sizes. *)
 Require Import List NArith Bool PeanoNat Lia ZifyBool ZifyN.
 Require Import KV.Parser.Utf8 KV.Parser.Unicode KV.Parser.Keywords KV.Parser.Scanners KV.Parser.Grammar.
 Require Import KV.Parser.Utf8Proofs KV.Parser.ScannerProofs KV.Parser.GrammarProofs.
-Require Import KV.Parser.RoundTrip KV.Parser.RoundTrip2 KV.Parser.RoundTrip3 KV.Parser.Lex KV.Parser.StmtRT KV.Parser.FilterRT KV.Parser.FilterRT2 KV.Parser.SelectRT.
+Require Import KV.Parser.RoundTrip KV.Parser.RoundTrip2 KV.Parser.RoundTrip3 KV.Parser.Lex KV.Parser.StmtRT KV.Parser.FilterRT KV.Parser.FilterRT2 KV.Parser.SelectRT KV.Parser.BindRT KV.Parser.ValuesRT.
 Import ListNotations.
 Open Scope N_scope.
 
 Inductive Item : Type :=
 | ItStmt (st : Stmt) (dot : option L)
 | ItFilter (f : FilterC)
+| ItBind (b : BindC)
+| ItValues (c : ValuesC)
 | ItGraph (kl : L) (kw : str) (name : OTok) (p : Grp) (dot : option L)
 | ItAlts (b : Brc) (more : Alts) (dot : option L)
 with Alts : Type :=
@@ -41,6 +43,8 @@ Fixpoint pr_item (it : Item) : str :=
   match it with
   | ItStmt st d => pr_stmt st ++ pr_dot d
   | ItFilter f => pr_filter f
+  | ItBind b => pr_bind b
+  | ItValues c => pr_values c
   | ItGraph kl kw name p d => lay_bytes kl ++ kw ++ pr_o name ++ pr_grp p ++ pr_dot d
   | ItAlts b more d => pr_brc b ++ pr_alts more ++ pr_dot d
   end
@@ -70,6 +74,8 @@ Fixpoint tr_item (it : Item) : group :=
   match it with
   | ItStmt st _ => GBgp (stmt_triples st)
   | ItFilter f => GFilter (tr_or (fl_e f))
+  | ItBind b => tr_bind b
+  | ItValues c => tr_values c
   | ItGraph _ _ name p _ => GGraph (term_text (oterm name)) (tr_grp p)
   | ItAlts b more _ => alts_tree (tr_brc b :: tr_alts more)
   end
@@ -91,6 +97,8 @@ Fixpoint sz_item (it : Item) : nat :=
   match it with
   | ItStmt _ _ => 1%nat
   | ItFilter f => sz_or (fl_e f)
+  | ItBind _ => 1%nat
+  | ItValues _ => 1%nat
   | ItGraph _ _ _ p _ => S (sz_grp p)
   | ItAlts b more _ => (sz_brc b + sz_alts more)%nat
   end
@@ -130,6 +138,8 @@ Fixpoint wf_item (it : Item) (following : str) : bool :=
       wf_stmt st x && stmt_endb st x && item_end d following
       && kwfree [kw_filter; kw_bind; kw_values; kw_graph] (pr_stmt st ++ x) && nolead 125 (pr_stmt st ++ x) && nolead 123 (pr_stmt st ++ x)
   | ItFilter f => wf_filter f following
+  | ItBind b => wf_bind b following
+  | ItValues c => wf_values c following
   | ItGraph kl kw name p d =>
       let x := pr_dot d ++ following in
       wf_kw kw_graph kw kl (pr_o name ++ pr_grp p ++ x) && wf_gname name (pr_grp p ++ x) && wf_grp p x && item_end d following
@@ -212,6 +222,8 @@ Proof.
     apply andb_true_iff in H. destruct H as [H He]. apply andb_true_iff in H. destruct H as [H _]. apply item_end_dot in He.
     apply valid_app; [eapply stmt_valid; eassumption|now apply dot_valid].
   - intros fl f H. cbn [wf_item pr_item] in *. eapply filter_valid; eassumption.
+  - intros b f H. cbn [wf_item pr_item] in *. exact (proj1 (bind_parts_valid b f H)).
+  - intros c f H. cbn [wf_item pr_item] in *. eapply values_valid; eassumption.
   - intros kl kw name p IH d f H. cbn [wf_item pr_item] in *. cbv zeta in H.
     apply andb_true_iff in H. destruct H as [H He]. apply andb_true_iff in H. destruct H as [H Hp]. apply andb_true_iff in H. destruct H as [Hk Hn].
     rewrite app_assoc. apply valid_app; [eapply wf_kw_valid; [|eassumption]; kw_a|].
@@ -478,6 +490,20 @@ Proof.
   destruct ((65 <=? b) && (b <=? 90)) eqn:E1; destruct ((65 <=? k) && (k <=? 90)) eqn:E2; lia.
 Qed.
 
+Lemma bind_clause_skip : forall x, Valid x -> bind_clause (skip_ws x) = bind_clause x.
+Proof. intros x Hv. unfold bind_clause. now rewrite keyword_skip. Qed.
+Lemma values_clause_skip : forall x, Valid x -> values_clause (skip_ws x) = values_clause x.
+Proof. intros x Hv. unfold values_clause. now rewrite keyword_skip. Qed.
+
+(* an item that starts with a keyword: the first non-layout byte is the keyword's first letter (in either case) *)
+Lemma kw_item_head : forall kw k kw' txt l x, kw = k :: kw' -> is_ascii_alpha k = true -> lay_okb l = true -> kwcaseb kw txt = true -> Valid (txt ++ x) ->
+  exists b t, skip_ws (lay_bytes l ++ txt ++ x) = b :: t /\ letter b /\ ascii_lower b = ascii_lower k.
+Proof.
+  intros kw k kw' txt l x Ek Hk Hl Hc Hv. destruct (kwcase_first _ _ _ _ Hc Ek Hk) as (b & t & Etxt & Lb & Hlow).
+  destruct (letter_facts b Lb) as (Hb & Hw & H65). rewrite Etxt in *. cbn [app] in *. exists b, (t ++ x). split; [|split; assumption].
+  apply lead_skip; try assumption; try lia. now destruct (valid_ascii_head b (t ++ x) Hv Hb) as (_ & _ & ?).
+Qed.
+
 Theorem group_rt :
   (forall it f joined R, (sz_item it <= f)%nat -> wf_item it R = true -> Valid R ->
      group_loop (S f) (pr_item it ++ R) joined = group_loop f R (joined ++ [tr_item it])) /\
@@ -513,6 +539,48 @@ Proof.
       - destruct (valid_split_ascii _ _ _ VI Hb) as (_ & Vb & _). now destruct (valid_ascii_head _ _ Vb Hb) as (_ & _ & ?). }
     rewrite group_loop_S. cbv zeta. rewrite E125. rewrite starts_keyword_skip by assumption. rewrite (starts_keyword_true _ _ _ _ Kok). cbn [bind].
     rewrite filter_clause_skip by assumption. rewrite (filter_roundtrip fl f R Hf H0 HR). reflexivity.
+  - (* BIND *)
+    intros b f joined R Hf H HR. cbn [sz_item wf_item pr_item tr_item] in *.
+    destruct (bind_parts_valid b R H) as [Vb V2].
+    assert (VI : Valid (pr_bind b ++ R)) by now apply valid_app.
+    assert (H0 := H). unfold wf_bind in H. do 12 (apply andb_true_iff in H; destruct H as [H _]). apply andb_true_iff in H. destruct H as [Hkl Hk].
+    assert (E0 : pr_bind b ++ R = lay_bytes (bd_kl b) ++ bd_kw b ++ (lay_bytes (bd_l1 b) ++ 40 :: lay_bytes (bd_lf b) ++ encode (bd_fn b) ++ lay_bytes (bd_l2 b) ++ 40 ::
+         pr_o (bd_a1 b) ++ pr_oms (bd_more b) ++ lay_bytes (bd_l3 b) ++ 41 :: lay_bytes (bd_las b) ++ bd_askw b ++ pr_o (bd_v b) ++ lay_bytes (bd_l4 b) ++ [41]) ++ R).
+    { unfold pr_bind. now rewrite <- !app_assoc. }
+    destruct (kw_item_head kw_bind _ _ (bd_kw b) (bd_kl b) _ eq_refl eq_refl Hkl Hk
+                ltac:(apply valid_app; [eapply (kw_valid kw_bind); [kw_a|eassumption]|apply valid_app; [exact V2|exact HR]])) as (b0 & t0 & Esk & Lb & Hlow).
+    rewrite <- E0 in Esk. pose proof (letter_le b0 Lb) as Hle.
+    assert (Kb : exists m r, keyword kw_bind (pr_bind b ++ R) = Ok (m, r)).
+    { pose proof (bind_rt b R H0 HR) as Br. unfold bind_clause in Br. destruct (keyword kw_bind (pr_bind b ++ R)) as [[m r]| | |]; try discriminate. eauto. }
+    destruct Kb as (m & r & Kb).
+    rewrite group_loop_S. cbv zeta. rewrite Esk at 1. rewrite strip1_none by lia.
+    rewrite !starts_keyword_skip by assumption.
+    rewrite (starts_keyword_false _ _ (keyword_fail kw_filter _ _ _ b0 t0 eq_refl Esk ltac:(rewrite Hlow; cbv; discriminate))). cbn [bind].
+    rewrite (starts_keyword_true _ _ _ _ Kb). cbn [bind].
+    rewrite bind_clause_skip by assumption. rewrite (bind_rt b R H0 HR). reflexivity.
+  - (* VALUES *)
+    intros c f joined R Hf H HR. cbn [sz_item wf_item pr_item tr_item] in *.
+    pose proof (values_valid c R H) as Vc.
+    assert (VI : Valid (pr_values c ++ R)) by now apply valid_app.
+    assert (H0 := H). unfold wf_values in H. cbv zeta in H. do 4 (apply andb_true_iff in H; destruct H as [H _]).
+    unfold wf_kw in H. apply andb_true_iff in H. destruct H as [H _]. apply andb_true_iff in H. destruct H as [Hkl Hk].
+    assert (E0 : pr_values c ++ R = lay_bytes (vl_kl c) ++ vl_kw c ++ (pr_vvars (vl_vars c) ++ lay_bytes (vl_lb c) ++ 123 :: pr_rows (vl_rows c) ++ lay_bytes (vl_rb c) ++ [125]) ++ R).
+    { unfold pr_values. now rewrite <- !app_assoc. }
+    assert (VT : Valid (vl_kw c ++ (pr_vvars (vl_vars c) ++ lay_bytes (vl_lb c) ++ 123 :: pr_rows (vl_rows c) ++ lay_bytes (vl_rb c) ++ [125]) ++ R)).
+    { rewrite E0 in VI. pose proof (lay_valid _ Hkl) as Vl.
+      destruct (kwcase_first _ _ _ _ Hk eq_refl eq_refl) as (b1 & t1 & Etxt & Lb1 & _). destruct (letter_facts b1 Lb1) as (Hb1 & _ & _).
+      rewrite Etxt in *. cbn [app] in *. now destruct (valid_split_ascii _ _ _ VI Hb1) as (_ & ? & _). }
+    destruct (kw_item_head kw_values _ _ (vl_kw c) (vl_kl c) _ eq_refl eq_refl Hkl Hk VT) as (b0 & t0 & Esk & Lb & Hlow).
+    rewrite <- E0 in Esk. pose proof (letter_le b0 Lb) as Hle.
+    assert (Kv : exists m r, keyword kw_values (pr_values c ++ R) = Ok (m, r)).
+    { pose proof (values_rt c R H0 HR) as Vr. unfold values_clause in Vr. destruct (keyword kw_values (pr_values c ++ R)) as [[m r]| | |]; try discriminate. eauto. }
+    destruct Kv as (m & r & Kv).
+    rewrite group_loop_S. cbv zeta. rewrite Esk at 1. rewrite strip1_none by lia.
+    rewrite !starts_keyword_skip by assumption.
+    rewrite (starts_keyword_false _ _ (keyword_fail kw_filter _ _ _ b0 t0 eq_refl Esk ltac:(rewrite Hlow; cbv; discriminate))). cbn [bind].
+    rewrite (starts_keyword_false _ _ (keyword_fail kw_bind _ _ _ b0 t0 eq_refl Esk ltac:(rewrite Hlow; cbv; discriminate))). cbn [bind].
+    rewrite (starts_keyword_true _ _ _ _ Kv). cbn [bind].
+    rewrite values_clause_skip by assumption. rewrite (values_rt c R H0 HR). reflexivity.
   - (* GRAPH name { ... } *)
     intros kl kw name p IH d f joined R Hf H HR. cbn [sz_item wf_item pr_item tr_item] in *. cbv zeta in H.
     apply andb_true_iff in H. destruct H as [H Hend]. apply andb_true_iff in H. destruct H as [H Hp]. apply andb_true_iff in H. destruct H as [Hk Hn].
